@@ -14,7 +14,7 @@ type Server struct {
 
 func NewServer(s *openapi3.Server) (zero Server, _ error) {
 	variables, err := NewMap[ServerVariable, *openapi3.ServerVariable](s.Variables, func(sv *openapi3.ServerVariable) (ServerVariable, error) {
-		return NewServerVariable(sv), nil
+		return NewServerVariable(sv)
 	})
 	if err != nil {
 		return zero, fmt.Errorf("new variables: %w", err)
@@ -44,14 +44,29 @@ type ServerVariable struct {
 	Description string
 }
 
-func NewServerVariable(sv *openapi3.ServerVariable) ServerVariable {
+func NewServerVariable(sv *openapi3.ServerVariable) (zero ServerVariable, _ error) {
+	if sv == nil {
+		return zero, fmt.Errorf("server variable object is not set")
+	}
 	enums := make([]string, 0, len(sv.Enum))
 	for _, e := range sv.Enum {
-		enums = append(enums, e.(string))
+		s, ok := e.(string)
+		if !ok {
+			return zero, fmt.Errorf("'enum' value %v: expected a string", e)
+		}
+		enums = append(enums, s)
+	}
+	var def string
+	if sv.Default != nil {
+		s, ok := sv.Default.(string)
+		if !ok {
+			return zero, fmt.Errorf("'default' value %v: expected a string", sv.Default)
+		}
+		def = s
 	}
 	return ServerVariable{
 		Enum:        enums,
-		Default:     sv.Default.(string),
+		Default:     def,
 		Description: sv.Description,
-	}
+	}, nil
 }
